@@ -39,6 +39,9 @@ class Gen:
         return self.uid
 
     def node_u(self):
+        if self.cfg.get("unicode_labels") and self.profile == "strs":
+            # multi-byte UTF-8 sequences, so that short reads / writes cut through characters
+            return NODE_U["strs"] + ["é", "日本", "ñu", "ß1"]
         return NODE_U[self.profile]
 
     def edge_u(self):
